@@ -354,6 +354,18 @@ def _coverage(ctx):
                 '_unshare_network (found %d)' % len(created.out))
     ctx.require(len(removed.out) >= 6, 'removal descriptors of '
                 '_cleanup_network (found %d)' % len(removed.out))
+    # every removal happens only while the network resource is still
+    # allocated to this container: after it was released the address (and
+    # the ip-set entries keyed by it, which carry no owner) may belong to
+    # somebody else - a repeated finish must find nothing to undo
+    for desc in removed.out:
+        if desc['kind'] == 'spec':
+            continue
+        held = any(_resource_held(c) for c in desc['conds'])
+        ctx.ob('C16.3', stop, desc['call'], held,
+               'removal only while the network resource is still held '
+               '(conditions: %s)' % (desc['conds'] or '-'),
+               construct='held: %s %s' % (desc['kind'], desc['const']))
     for desc in created.out:
         if desc['kind'] == 'spec':
             cands = [r for r in removed.out if r['kind'] == 'spec' and
@@ -603,6 +615,14 @@ def _repeatable(ctx, stop, fin):
     ctx.ob('C16.3', rm, None, "'-exist'" in ast.unparse(rm.node),
            'rm_ip_set tolerates a missing entry (-exist)',
            construct='rm_ip_set -exist')
+    # ... and nothing else: a delete that really failed must escape, so
+    # that the finish is reported as failed and run again (a handler here
+    # would swallow it and the entry would stay for ever)
+    handlers = [sub for sub in K.walk_no_nested(rm.node)
+                if isinstance(sub, ast.Try) and sub.handlers]
+    ctx.ob('C16.3', rm, handlers[0] if handlers else None, not handlers,
+           'rm_ip_set lets a failed removal escape (no exception handler '
+           'around the ipset call)', construct='rm_ip_set failures escape')
 
 
 def _ports(ctx):
